@@ -310,7 +310,10 @@ pub fn sdes_consistent(b: &[u8], seen: &[SeenChunk]) -> Result<(), String> {
     }
     let mut last_err = String::new();
     for end in ends {
-        match lay(b, end, 4, seen) {
+        // the result of laying out a suffix of the chunks from an offset depends only on
+        // (offset, suffix length): remember the failures, so that the search is polynomial
+        let mut failed = std::collections::HashSet::new();
+        match lay(b, end, 4, seen, &mut failed) {
             Ok(()) => return Ok(()),
             Err(e) => last_err = format!("end={end}: {e}"),
         }
@@ -318,7 +321,18 @@ pub fn sdes_consistent(b: &[u8], seen: &[SeenChunk]) -> Result<(), String> {
     Err(last_err)
 }
 
-fn lay(b: &[u8], end: usize, at: usize, seen: &[SeenChunk]) -> Result<(), String> {
+fn lay(b: &[u8], end: usize, at: usize, seen: &[SeenChunk], failed: &mut std::collections::HashSet<(usize, usize)>) -> Result<(), String> {
+    if failed.contains(&(at, seen.len())) {
+        return Err(format!("no layout of the remaining {} chunk(s) from offset {at}", seen.len()));
+    }
+    let r = lay_inner(b, end, at, seen, failed);
+    if r.is_err() {
+        failed.insert((at, seen.len()));
+    }
+    r
+}
+
+fn lay_inner(b: &[u8], end: usize, at: usize, seen: &[SeenChunk], failed: &mut std::collections::HashSet<(usize, usize)>) -> Result<(), String> {
     if seen.is_empty() {
         // nothing left over: only zeros may remain
         return if b[at.min(end)..end].iter().all(|&x| x == 0) {
@@ -400,7 +414,7 @@ fn lay(b: &[u8], end: usize, at: usize, seen: &[SeenChunk]) -> Result<(), String
         }
         let terminated = q > p;
         if terminated || (rest.is_empty() && q == end) {
-            match lay(b, end, q, rest) {
+            match lay(b, end, q, rest, failed) {
                 Ok(()) => return Ok(()),
                 Err(e) => err = e,
             }
